@@ -65,6 +65,13 @@ Theorem C01_routes : forall (V : Type) (bin : binop -> V -> V -> V) (n : node V)
   inst_from_paths V bin n (combine (unique_prior_paths V n) vec) = inst_from_vector V bin n vec.
 Proof. exact path_route. Qed.
 
+(* the same with the boolean, machine-checkable form of the hypothesis (the harness evaluates wfb on
+   every generated model and reports how many satisfy it) *)
+Theorem C01_routes_checkable : forall (V : Type) (bin : binop -> V -> V -> V) (n : node V) (vec : list V),
+  wfb V n = true -> List.length vec = prior_count V n ->
+  inst_from_paths V bin n (combine (unique_prior_paths V n) vec) = inst_from_vector V bin n vec.
+Proof. exact (fun V bin n vec H => path_route V bin n vec (wfb_sound V n H)). Qed.
+
 (* every advertised path resolves to the parameter it is advertised for *)
 Theorem C01_paths_resolve : forall (V : Type) (n : node V), wf V n ->
   forall p q, In (p, q) (walk V n) -> prior_at V p n = Some q.
